@@ -129,6 +129,36 @@ def purity_worker(tier):
             out["results"].append(_res(f"Module.step[{name}]:a second step from the same state yields the identical terms (no hidden state); params dict entries not rebound",
                                        same and p_ids == {k: id(v) for k, v in sm.params.items()}, backend="structural"))
             out["reached"].update(sm.rt.reached)
+        # inputs belong to the caller: the real init path (to_jax / get_all_parameters / get_all_states, reached from integrate's
+        # init_fn via `pstate += param_state`) leaves a data_set param_state untouched, and using it again gives the same arrays
+        # (interleaved synapse types: global edge index != rank within the type) - seeded change C06_c
+        import copy
+        import z3
+        from jaxley.synapses import TestSynapse
+        from ..sym import Sym, SymArray
+        net3 = jx.Network([cell, cell, cell])
+        connect(net3.cell(0).branch(0).comp(0), net3.cell(1).branch(1).comp(0), IonotropicSynapse())
+        connect(net3.cell(1).branch(0).comp(1), net3.cell(2).branch(0).comp(0), TestSynapse())
+        connect(net3.cell(2).branch(0).comp(0), net3.cell(0).branch(1).comp(0), IonotropicSynapse())
+        for vname, vf, key in (("IonotropicSynapse.edge(1)", lambda n: n.IonotropicSynapse.edge(1), "IonotropicSynapse_gS"), ("TestSynapse.edge(0)", lambda n: n.TestSynapse.edge(0), "TestSynapse_gC"),
+                               ("cell(1).branch(0)", lambda n: n.cell(1).branch(0), "HH_gNa")):
+            ps = vf(net3).data_set(key, 0.5, None)
+            X = Sym(z3.Real("X"))
+            ps = [{"key": p["key"], "indices": p["indices"], "val": SymArray(np.asarray([X], dtype=object))} for p in ps]
+            snap = [(p["key"], np.array(p["indices"], copy=True), id(p["indices"])) for p in ps]
+            arrs = []
+            for rep in range(3):
+                Ctx.reset()
+                sm = SymModule(net3)
+                sm.prepare(pstate=ps)
+                a = sm.params[key] if key in sm.params else sm.states[key]
+                arrs.append([str(x.e) if isinstance(x, Sym) else repr(x) for x in np.asarray(a, dtype=object).reshape(-1)])
+                out["reached"].update(sm.rt.reached)
+            untouched = all(p["key"] == k0 and np.array_equal(np.asarray(p["indices"]), i0) for p, (k0, i0, _) in zip(ps, snap)) and len(ps) == len(snap)
+            out["results"].append(_res(f"integrate init path[{vname}.{key}]:a data_set param_state is left untouched (keys, indices) by get_all_parameters / get_all_states", untouched,
+                                       f"indices now {[np.asarray(p['indices']).tolist() for p in ps]}, were {[i0.tolist() for _, i0, _ in snap]}", backend="structural"))
+            out["results"].append(_res(f"integrate init path[{vname}.{key}]:three uses of the same param_state give identical parameter arrays (repeated calls are identical)", arrs[0] == arrs[1] == arrs[2],
+                                       f"{arrs[0]} / {arrs[1]} / {arrs[2]}", backend="structural"))
     except Exception as e:
         out["error"] = f"{type(e).__name__}: {e}\n{traceback.format_exc(limit=8)}"
     return out
